@@ -87,7 +87,10 @@ class Effects:
             elif isinstance(n, ast.AnnAssign) and n.value is not None:
                 add(n.target, n.value)
             elif isinstance(n, ast.AugAssign):
-                add(n.target, None)
+                if isinstance(n.target, ast.Name):
+                    b.setdefault(n.target.id, []).append(("aug", n))
+                else:
+                    add(n.target, None)
             elif isinstance(n, ast.For):
                 add(n.target, None)
             elif isinstance(n, ast.comprehension):
@@ -151,6 +154,8 @@ class Effects:
         for v in bs:
             if v is None:
                 return False
+            if isinstance(v, tuple) and v[0] == "aug":
+                continue  # in-place update keeps the identity of whatever the name holds
             if isinstance(v, tuple) and v[0] == "with":
                 # the `as` value of a package context manager: fresh iff its yield value is
                 ok = False
@@ -213,6 +218,7 @@ class Effects:
         """If local `name` is bound exactly once to a constructor call of an
         analysed class, return (Class, call)."""
         bs = self.bindings(f).get(name)
+        bs = [b_ for b_ in (bs or []) if not (isinstance(b_, tuple) and b_[0] == "aug")]
         if not bs or len(bs) != 1 or bs[0] is None or isinstance(bs[0], tuple):
             return None
         v = bs[0]
@@ -242,8 +248,9 @@ class Effects:
                 g = g.parent
             bs = self.bindings(f).get(n)
             if bs:
-                if len(bs) == 1 and isinstance(bs[0], (ast.Attribute, ast.Name)):
-                    return self.loc(bs[0], f, depth + 1)
+                plain = [b_ for b_ in bs if not (isinstance(b_, tuple) and b_[0] == "aug")]
+                if len(plain) == 1 and isinstance(plain[0], (ast.Attribute, ast.Name)):
+                    return self.loc(plain[0], f, depth + 1)
                 if self.local_fresh(n, f):
                     t = self.R.type_of(e, f)
                     tag = t[1] if t and t[0] in ("inst", "c") else None
@@ -373,6 +380,14 @@ class Effects:
         elif isinstance(t, ast.Subscript):
             l = self.loc(t.value, f)
             out.append(Effect("W", l, self.state_of(l, f)[0], f, stmt, key=t.slice, value=value, meth=("aug" if aug else None)))
+        elif isinstance(t, ast.Name) and aug is not None:
+            # x += y / x -= y on a name: in-place for mutable containers
+            l = self.loc(t, f)
+            ty = self.R.type_of(t, f)
+            mutable = ty is None or (ty[0] == "c" and ty[1] in ("list", "dict", "set", "sortedset", "mapping")) or ty[0] == "inst"
+            if l is not None and mutable and l[0][0] not in ("local",):
+                op = "D" if isinstance(aug, (ast.Sub, ast.BitAnd, ast.BitXor)) else "M"
+                out.append(Effect(op, l, self.state_of(l, f)[0], f, stmt, value=value, meth="aug"))
         elif isinstance(t, (ast.Tuple, ast.List)):
             for x in t.elts:
                 self._store(x, None, f, stmt, out, aug)
